@@ -33,6 +33,7 @@ def classify(out):
 
 
 def check(stats, m, env, sub="escape", info=None, symbolic=True):
+    m = safe(m)
     stats.case()
     vs = M.variables(m)
     r, ctx = DV.value_context(m, {k: v for k, v in env.items()}) if all(v in env for v in vs) else (None, None)
